@@ -18,6 +18,7 @@ RULE = ("Hypothesis-generated systems (2-4 atom types, comb-rule 1/2, 1-3 molecu
         "repeated name) and a multi-atom residue; distinct = spec hash")
 ASSUMPTIONS = ["independent .gro reader pbt/itp.py", "dilute boxes (placement always converges; time-outs are inconclusive)",
                "box comparison tolerance 1e-4 nm (the density box is rounded to 5 decimals by the program)"]
+RULE += (' -mi 0/1/2 with scripted failures, -res names that the last [ molecules ] entry does not hold, and build files dealt out over two or three -b files are part of the domain.')
 BUDGET = {"quick": (16, 60), "thorough": (16, 2500)}
 
 
